@@ -331,3 +331,115 @@ def run(ctx, report: Report) -> None:
             if dup:
                 r4.note(f'{mn}.__all__ lists {dup} more than once')
 
+
+    # ---- R5 ----------------------------------------------------------------------------------------------
+    r5 = report.rule('C16-R5', 'the shortcut functions take their positional arguments in the order Beautiful Soup passes them', floor=5)
+    bs4_call_order_rule(ctx, r5, facts)
+
+    # ---- R6 ----------------------------------------------------------------------------------------------
+    r6 = report.rule('C16-R6', 'import-time code does not operate on docstrings (None under -OO)')
+    docstring_rule(ctx, r6, reach)
+
+
+def bs4_call_order_rule(ctx, rule, facts):
+    """Every call `self.api.<function>(...)` in bs4/css.py: each positional argument that is a parameter of the calling bs4 method
+    (limit, flags, ...) or the prefix map reaches a parameter of the same name of soupsieve.<function>; keyword arguments name
+    parameters that exist.  BeautifulSoup(...).select(s, limit=2) and soupsieve.select(s, soup, limit=2) then mean the same."""
+    src = ctx.src
+    tree = facts.tree('bs4.css')
+    if tree is None:
+        raise AnalysisError('bs4/css.py not found (the premise of this rule)')
+    imod = src.mod('__init__')
+    n = 0
+    for fdef in [x for x in ast.walk(tree) if isinstance(x, ast.FunctionDef)]:
+        own = {a.arg for a in fdef.args.args + fdef.args.kwonlyargs}
+        for call in [c for c in ast.walk(fdef) if isinstance(c, ast.Call)]:
+            f = call.func
+            if not (isinstance(f, ast.Attribute) and isinstance(f.value, ast.Attribute) and f.value.attr == 'api'
+                    and isinstance(f.value.value, ast.Name) and f.value.value.id == 'self'):
+                continue
+            if f.attr not in imod.functions:
+                if f.attr[:1].islower():
+                    rule.violation(f'bs4 calls soupsieve.{f.attr}', 'soupsieve/__init__.py', f'bs4.css calls soupsieve.{f.attr}(), which the package does not define')
+                continue
+            target = imod.functions[f.attr]
+            params = [a.arg for a in target.args.posonlyargs + target.args.args]
+            kwonly = {a.arg for a in target.args.kwonlyargs}
+            for i, a in enumerate(call.args):
+                if isinstance(a, ast.Starred):
+                    break
+                role = None
+                if isinstance(a, ast.Name) and a.id in own and a.id in ('limit', 'flags', 'namespaces', 'custom'):
+                    role = a.id
+                elif isinstance(a, ast.Call) and isinstance(a.func, ast.Attribute) and a.func.attr == '_ns':
+                    role = 'namespaces'
+                if role is None:
+                    continue
+                n += 1
+                got = params[i] if i < len(params) else None
+                rule.instance({'bs4_method': fdef.name, 'calls': f'soupsieve.{f.attr}', 'position': i, 'passes': role, 'parameter_there': got},
+                              key=f'{fdef.name}|{f.attr}|{i}')
+                rule.obligation(got == role)
+                if got != role:
+                    rule.violation(f'soupsieve.{f.attr} positional {role}', imod.where(target),
+                                   f'bs4.css.{fdef.name}() passes its {role} as positional argument {i} of soupsieve.{f.attr}(), where the parameter is '
+                                   f'{got!r}: tag.select(..., {role}=v) through Beautiful Soup and soupsieve.{f.attr}(..., {role}=v) mean different things')
+            for k in call.keywords:
+                if k.arg is not None and k.arg not in params and k.arg not in kwonly and target.args.kwarg is None:
+                    rule.violation(f'soupsieve.{f.attr} keyword {k.arg}', imod.where(target),
+                                   f'bs4.css.{fdef.name}() passes {k.arg}= to soupsieve.{f.attr}(), which has no such parameter')
+    if n < 5:
+        raise AnalysisError(f'only {n} role-carrying positional arguments found in the calls of bs4/css.py (anchor vanished)')
+
+
+def docstring_rule(ctx, rule, reach):
+    """Import-time code never operates on a docstring: under `python -OO` (PYTHONOPTIMIZE=2) every __doc__ is None, so `f.__doc__ +=
+    ...`, `__doc__.format(...)`, `cls.__doc__ % ...` at module level raise TypeError / AttributeError and the package cannot be
+    imported at all.  Reading a docstring into a value, testing it, or formatting it into an f-string is harmless."""
+    src = ctx.src
+    n = 0
+    for mn, mod in src.mods.items():
+        scopes = [(f'{mn} (module level)', [st for st in mod.tree.body if not isinstance(st, (ast.FunctionDef, ast.AsyncFunctionDef))])]
+        for q in reach:
+            if q.startswith(mn + '.'):
+                try:
+                    m_, fn = src.func(q)
+                except Exception:
+                    continue
+                if m_ is mod:
+                    scopes.append((q, fn.body))
+        for where, body in scopes:
+            for st in body:
+                nodes = ast.walk(st) if not isinstance(st, ast.ClassDef) else ast.walk(ast.Module(body=[x for x in st.body if not isinstance(x, (ast.FunctionDef, ast.AsyncFunctionDef))], type_ignores=[]))
+                for x in nodes:
+                    is_doc = (isinstance(x, ast.Attribute) and x.attr == '__doc__') or (isinstance(x, ast.Name) and x.id == '__doc__')
+                    if not is_doc:
+                        continue
+                    n += 1
+                    par = mod.parents.get(x)
+                    risky = None
+                    if isinstance(par, ast.AugAssign) and par.target is x:
+                        risky = f'`{unparse(par)[:70]}`'
+                    elif isinstance(par, ast.BinOp):
+                        risky = f'`{unparse(par)[:70]}`'
+                    elif isinstance(par, ast.Attribute) and par.value is x:
+                        risky = f'`{unparse(par)[:70]}` (a method of the docstring)'
+                    elif isinstance(par, ast.Subscript) and par.value is x:
+                        risky = f'`{unparse(par)[:70]}`'
+                    elif isinstance(par, ast.Call) and any(a is x for a in par.args) and call_name(par) in ('len', 'textwrap.dedent', 'inspect.cleandoc', 'dedent', 'cleandoc'):
+                        risky = f'`{unparse(par)[:70]}`'
+                    if risky:
+                        # a guard `if X.__doc__` / `X.__doc__ is not None` around the statement discharges it
+                        cur, guarded = par, False
+                        while cur is not None:
+                            if isinstance(cur, (ast.If, ast.IfExp)) and '__doc__' in unparse(cur.test):
+                                guarded = True
+                                break
+                            cur = mod.parents.get(cur)
+                        rule.instance({'where': where, 'operation': risky, 'guarded': guarded}, key=f'doc|{where}|{risky}')
+                        rule.obligation(guarded)
+                        if not guarded:
+                            rule.violation(f'{where} operates on __doc__', mod.where(x),
+                                           f'{where}: {risky} runs while the package is imported; with docstrings stripped (python -OO) __doc__ is None and the '
+                                           f'import of soupsieve - and of bs4, which imports it - fails')
+    rule.instance({'docstring_reads_at_import_time': n}, key='doc-census', nontrivial=False)
